@@ -34,3 +34,11 @@ package fetch
 //@   layout v11 Partition int32, ErrorCode int16, HighWatermark int64, LastStableOffset int64, LogStartOffset int64, AbortedTransactions []ResponseTransaction, PreferredReadReplica int32, RecordSet protocol.RecordSet
 //@ wire ResponseTransaction
 //@   layout v4..v11 ProducerID int64, FirstOffset int64
+
+//@ property C12
+// Routing (C12): which of the protocol message interfaces the request satisfies decides where the Transport sends it
+// (connPool.sendRequest tests BrokerMessage, then GroupMessage, then TransactionalMessage).
+//@ wire Request
+//@   implements protocol.BrokerMessage
+//@   notimplements protocol.GroupMessage
+//@   notimplements protocol.TransactionalMessage
